@@ -12,7 +12,17 @@ Commands added to C08's:
   sortset rev lim d ...    the same for a result without weights (TypeError unless empty)
   applysort rev lim <tree> sort(apply(q)): ids with their scores; scores closer than the tolerance may swap
 
-Mutation sanity check: see MUTATIONS below.
+Mutation sanity check (scratch copies VERIF_REPO=/var/tmp/mut_score_N, quick tier; all 8 gave VIOLATION with a
+shrunk failing input):
+  1 TextIndex.apply: zero guard `if qw == 0: qw = 1.0` removed - needs a non-empty result with query weight 0
+      (a glob whose pattern is itself no indexed word) -> ZeroDivisionError
+  2 NotNode.terms() returns the child's terms - needs a NOT subtree with in-vocabulary words
+  3 TextIndex.sort: items.sort(reverse=reverse)
+  4 TextIndex.sort: `if limit is not None` (limit 0 returns nothing)
+  5 OkapiIndex.query_weight: tfmax = K1 (scores above 1: the bound check fires)
+  6 TextIndex.sort: empty result no longer returned unchanged
+  7 CosineIndex.query_weight sums idf instead of idf^2
+  8 AndNode.executeQuery no longer subtracts the NOT results
 """
 import random
 
@@ -366,14 +376,14 @@ def features(case, outs):
                 f.append(op + ":None")
             elif o in ("{}", "same"):
                 f.append(op + ":empty")
-            elif op == "apply":
+            elif op == "apply" and o.startswith("{"):
                 vals = [float(t.split(":")[1]) for t in o[1:-1].split()]
                 f.append("apply:scored")
                 if any(v > 0.999999 for v in vals):
                     f.append("apply:score==1")
                 if any(v > 1 + 1e-6 for v in vals):
                     f.append("apply:score>1(outside-hypotheses)")
-            elif op == "applyb":
+            elif op == "applyb" and not o.startswith("err"):
                 f.append("applyb:" + o)
         if op in ("sort", "sortset", "applysort"):
             f.append("%s:rev=%s" % (op, c[1]))
